@@ -1,0 +1,36 @@
+//! Verification facade for the inbound packet filter and the rate limiter (feature
+//! `verif-hooks`). Add-only: thin public wrappers over crate-private items, no behaviour.
+
+pub use super::filter::rate_limiter::{Limiter, Quota, RateLimitedErr};
+use super::filter::{Filter, FilterConfig};
+use crate::{
+    node_info::NodeAddress,
+    packet::{Packet, ProtocolIdentity},
+};
+use std::{net::SocketAddr, time::Duration};
+
+/// Public wrapper around the crate-private [`Filter`].
+pub struct VFilter(Filter);
+
+impl VFilter {
+    pub fn new(config: FilterConfig, ban_duration: Option<Duration>) -> Self {
+        VFilter(Filter::new(config, ban_duration))
+    }
+
+    /// The IP stage of the filter.
+    pub fn initial_pass(&mut self, src: &SocketAddr) -> bool {
+        self.0.initial_pass(src)
+    }
+
+    /// The node stage of the filter. The packet argument of the real function is unused by it; a
+    /// random packet from the claimed source is supplied.
+    pub fn final_pass(&mut self, node_address: &NodeAddress) -> bool {
+        let packet = Packet::new_random(&node_address.node_id, ProtocolIdentity::default())
+            .expect("PRNG works");
+        self.0.final_pass(node_address, &packet)
+    }
+
+    pub fn prune_limiter(&mut self) {
+        self.0.prune_limiter()
+    }
+}
